@@ -327,6 +327,13 @@ def decorate(g, rnd, typed=0.25, dflt=0.25, vtypes=True, strings=0.2, ctx=0.0, r
                 g.rules[i] = Rule(r.lhs, r.rhs, r.prec, 'd')
         elif ctx and rnd.random() < ctx:
             g.rules[i] = Rule(r.lhs, r.rhs, r.prec, 'x')
+        elif vt in ('V', 'W') and rnd.random() < 0.12 and any(o != vt for o in g.vtypes):
+            # converting functor: returns another value type of this grammar, from which the left side is then constructed
+            g.rules[i] = Rule(r.lhs, r.rhs, r.prec, 'c' + rnd.choice([o for o in g.vtypes if o != vt]))
+        elif vt == 'I' and rnd.random() < 0.3 and any(sy[0] == 't' and g.terms[sy[1]].kind == 'c' and not g.terms[sy[1]].typed for sy in r.rhs[:9]):
+            # helper _eK picking a char term: the left side (long) is constructed from term_value<char>
+            ks = [k for k, sy in enumerate(r.rhs[:9]) if sy[0] == 't' and g.terms[sy[1]].kind == 'c' and not g.terms[sy[1]].typed]
+            g.rules[i] = Rule(r.lhs, r.rhs, r.prec, 'e%d' % (rnd.choice(ks) + 1))
         elif vt in ('V', 'W') and rnd.random() < 0.12:
             # helper functor _eK: the K-th right-side value is passed through (needs a nonterminal of the same value type at K)
             ks = [k for k, sy in enumerate(r.rhs) if sy[0] == 'n' and g.vtypes[sy[1]] == vt and k < 9]
